@@ -126,6 +126,25 @@ def run(ctx):
         timeline_check(ctx, inp, frames, sock, key)
 
 
+    # the pong meets a full send buffer (EAGAIN at some write attempts; `_socket.send` waits and retries): still exactly one
+    # pong per ping.  Real runs + the timeline oracle only (the model's transport has no would-block)
+    import session
+    import simnet
+    for frames in ([F(9, b"p1"), F(9, b"p2"), F(1, b"x")], [F(9, b""), F(2, b"ab", fin=0), F(9, b"q" * 125), F(0, b"c")]):
+        stream = b"".join(f.enc() for f in frames)
+        for eagain in ([0], [1], [0, 2], [2], [1, 3]):
+            for acc in (None, [5]):
+                cfg = {"keys": [key] * (len(frames) + 2), "eagain": eagain, "to": 5000}
+                if acc:
+                    cfg["acc"] = acc
+                with simnet.writable_selector():
+                    out, ws, sock = session.run_impl(cfg, [("chunk", stream)], ["recv"] * 2)
+                ctx.case(key=("eagain", len(frames), str(eagain), str(acc)), nontrivial=True, cls="eagain:pong")
+                inp = {"op": "recv x2 with EAGAIN on the pong's write", "frames": [f.desc() for f in frames], "eagain_at_send_calls": eagain,
+                       "accepts": acc}
+                timeline_check(ctx, inp, frames, sock, key)
+
+
 def search(ctx):
     run(ctx)
 
